@@ -10,7 +10,7 @@ import (
 
 // C19 — evacuation keeps every available object available on the remaining shards (structure).
 func init() {
-	register(&Check{ID: "C19", Level: "other", Pkgs: []string{"./pkg/local_object_storage/engine"}, Run: runC19})
+	register(&Check{ID: "C19", Level: "other", Pkgs: []string{"./pkg/local_object_storage/engine", "./pkg/local_object_storage/metabase"}, Run: runC19})
 }
 
 const engT = "(*pkg/local_object_storage/engine.StorageEngine)."
@@ -152,6 +152,14 @@ func runC19(p *core.Prog, r *core.Report) {
 	if nIs == 0 {
 		r.Fatalf("C19.R7: the listing error is not classified with errors.Is in Evacuate")
 	}
+	// ---------------- R8 the target's 'is it there?' answer does not hide a pending mark
+	r8 := r.Rule("C19.R8", "the metabase existence test putToShard relies on (R5) answers a GC-marked, tombstoned or expired id with the matching error, never with a plain 'absent': the put path does not clear marks, so an object written over a stale garbage mark is invisible at once and collected later, while Evacuate counts it as moved (shared with C01.R3)", 3)
+	if ex := p.Func(mbDB + "exists"); ex == nil {
+		r.Fatalf("C19.R8: DB.exists not found")
+	} else {
+		statusSwitchMapping(p, r8, ex)
+	}
+	r.Explain += " (R8) DB.exists maps every non-available status of the asked id to its error (a stale garbage mark without an object record included); putToShard then refuses the shard and Evacuate goes on to the next one or to the fault handler."
 }
 
 // evacuationAccountsEveryObject: shared by C19.R2 and C08.R4.
